@@ -1130,6 +1130,16 @@ impl<'a> RepositoryUpdate<'a> {
             }
         }
 
+        // The deltas to follow must not have gaps or duplicates.
+        if deltas.windows(2).any(|pair| {
+            pair[0].serial().checked_add(1) != Some(pair[1].serial())
+        }) {
+            self.log.debug(format_args!(
+                "Delta serials are not consecutive."
+            ));
+            return Err(SnapshotReason::BadDeltaSet)
+        }
+
         if deltas.len() > self.collector.config.max_delta_count {
             self.log.debug(format_args!(
                 "Too many delta steps required ({})", deltas.len()
